@@ -376,6 +376,40 @@ func verifyHeaderRules(c *an.Ctx, setExplanation bool) {
 	} else {
 		c.Violate("distinct|verifyHeader|set-keyed-by-key-id", "the count compared with C+1 is the size of a set keyed by key id", c.P.Rel(fn.Pos()), "quorum comparison not found")
 	}
+	// the number of signatures that are actually verified (the threshold handed to
+	// VerifyMultiSignature, which checks exactly that many) must be at least C+1
+	{
+		var cp1 ssa.Value
+		for _, v := range an.FindValues(fn, func(v ssa.Value) bool {
+			b, ok := v.(*ssa.BinOp)
+			if !ok || b.Op != token.ADD {
+				return false
+			}
+			k, isK := b.Y.(*ssa.Const)
+			f := fieldOfLoad(b.X)
+			return isK && k.Value != nil && k.Value.String() == "1" && f != nil && f.Name() == "C"
+		}) {
+			cp1 = v
+		}
+		proved, nCalls := false, 0
+		for _, k := range an.CallsTo(fn, vms) {
+			// the vbft call: the one whose threshold is not derived from len(header.Bookkeepers) alone
+			m := k.Common().Args[2]
+			if !mentionsField(m, "vbftPeerInfo") && cp1 != nil && !an.ProveLeqAt(fn, k, cp1, m) && isDbftThreshold(m) {
+				continue
+			}
+			if isDbftThreshold(m) {
+				continue
+			}
+			nCalls++
+			if cp1 != nil && an.ProveLeqAt(fn, k, cp1, m) {
+				proved = true
+			}
+		}
+		c.Check(nCalls == 1 && proved, "threshold|verifyHeader|verified-signatures-at-least-C+1",
+			"the number of signatures VerifyMultiSignature is told to verify (it verifies exactly that many) is at least C+1 for the governing configuration: derived from C+1, or compared with it before the call", c.P.Rel(fn.Pos()),
+			"the threshold m passed to VerifyMultiSignature is len(peers) - 6*len(peers)/7 (1 for 7 peers, 2 for 14) and is never related to C+1; only the number of LISTED member keys is compared with C+1")
+	}
 	// the member table (consensus peer table) is only updated after signature verification
 	{
 		if vms != nil {
@@ -396,4 +430,41 @@ func verifyHeaderRules(c *an.Ctx, setExplanation bool) {
 		v := an.Guarded(c.P, ah, []*an.Guard{an.GuardForFuncs("verifyHeader", funcObj(fn))}, func(in ssa.Instruction) bool { return isCallTo(in, objs...) }, false)
 		c.Check(v.Holds && v.GuardSites == 1 && v.ActionSites >= 2, "guard-verifyHeader|AddHeader", "a synced header enters the header cache/index only after verifyHeader succeeded", c.P.Rel(ah.Pos()), v.Witness)
 	}
+}
+
+// isDbftThreshold: m = len(header.Bookkeepers) - (len(header.Bookkeepers)-1)/3 (the pre-VBFT rule).
+func isDbftThreshold(m ssa.Value) bool {
+	b, ok := m.(*ssa.BinOp)
+	if !ok || b.Op != token.SUB {
+		return false
+	}
+	q, isQ := b.Y.(*ssa.BinOp)
+	if !isQ || q.Op != token.QUO {
+		return false
+	}
+	k, isK := q.Y.(*ssa.Const)
+	return isK && k.Value != nil && k.Value.String() == "3"
+}
+
+func mentionsField(v ssa.Value, name string) bool {
+	seen := map[ssa.Value]bool{}
+	var walk func(v ssa.Value, d int) bool
+	walk = func(v ssa.Value, d int) bool {
+		if v == nil || seen[v] || d > 8 {
+			return false
+		}
+		seen[v] = true
+		if strings.Contains(an.AccessPath(v), name) {
+			return true
+		}
+		if in, ok := v.(ssa.Instruction); ok {
+			for _, op := range in.Operands(nil) {
+				if *op != nil && walk(*op, d+1) {
+					return true
+				}
+			}
+		}
+		return false
+	}
+	return walk(v, 0)
 }
